@@ -290,8 +290,15 @@ func (b *BoundedBacktracker) SearchAtWithState(haystack []byte, at int, state *B
 		if end >= 0 {
 			return startPos, end, true
 		}
+		// In leftmost-first mode the visited table is kept across start positions: an entry
+		// is only left behind by a configuration that was explored completely without reaching
+		// a match, and that cannot change with the start position. Starting from a fresh table
+		// for every start position made the search quadratic in the haystack
+		// (([a-z])+[0-9] on a^n: every start re-explores the whole tail).
+		if !state.Longest {
+			continue
+		}
 		// O(1) reset: increment generation instead of O(n) array clear
-		// This is the key optimization that makes Search fast on large inputs
 		state.Generation++
 		// Handle overflow by resetting the array (every 256 searches)
 		if state.Generation == 0 {
